@@ -478,6 +478,10 @@ def compute_next_state(state: State, event: dict) -> State:
 
             _slide_with_subflows(new_state, flow_state)
 
+            if flow_state.head < 0:
+                # If the flow finished right away, we mark it as completed
+                flow_state.status = FlowStatus.COMPLETED
+
     # If there's any extension flow that has completed, we re-activate all aborted flows
     if extension_flow_completed:
         for flow_state in new_state.flow_states:
